@@ -7,6 +7,7 @@ sys.path.insert(0, "/verif")
 from vx.props import PROPS
 SEED = "/verif/seeded"
 EXTRA = {  # mutants that also fall under other claimed properties
+    "C08-m8": ["C02", "C03"], "C14-m8": ["C13"], "C15-m7": ["C12"],
     "C19-m2": ["C01"], "C02-m2": ["C01"], "C06-m1": ["C04", "C05"], "C06-m2": ["C01"], "C05-m1": ["C01"], "C05-m2": ["C04"],
     "C03-m1": ["C08"], "C07-m1": ["C08"], "C18-m2": ["C06"], "C09-m1": ["C08", "C02"], "C09-m2": ["C02"], "C03-m2": ["C02"], "C02-m1": ["C03"], "C14-m2": ["C13"], "C02-m3": ["C03"], "C02-m4": ["C09", "C15"], "C11-m3": ["C10"], "C20-m3": [], "C07-m3": ["C08"], "C07-m4": ["C08"], "C09-m3": ["C02"], "C09-m4": ["C08"], "C03-m3": ["C02"], "C03-m4": ["C02"], "C10-m3": ["C11", "C12"], "C10-m4": ["C11"], "C05-m4": ["C01"], "C12-m4": ["C15"], "C15-m3": ["C12"], "C15-m4": ["C09", "C02"], "C01-m3": ["C19"], "C01-m4": ["C05"], "C04-m4": ["C11", "C10"], "C06-m3": ["C18"], "C06-m4": ["C04"], "C08-m4": ["C09"], "C14-m4": [], "C18-m4": ["C17"], "C19-m3": ["C17"], "C19-m4": ["C20"], "C02-m5": ["C03"], "C02-m6": ["C01"], "C07-m5": ["C08"], "C07-m6": ["C08"], "C11-m5": ["C10"], "C11-m6": ["C10"], "C13-m5": ["C14"], "C13-m6": ["C14"], "C17-m5": ["C18"], "C17-m6": ["C18"], "C01-m5": ["C05"], "C01-m6": ["C05"], "C04-m5": ["C11"], "C05-m5": ["C02"], "C09-m5": ["C08"], "C09-m6": ["C02"], "C19-m5": ["C17"], "C19-m6": ["C05"], "C10-m5": ["C11"], "C10-m6": ["C17"], "C06-m5": ["C01", "C19"], "C06-m6": ["C04"], "C08-m5": ["C02", "C03"], "C08-m6": ["C09"], "C03-m5": ["C02", "C08"], "C03-m6": ["C08", "C09"], "C18-m5": ["C17"], "C14-m5": [], "C14-m6": ["C13"], "C12-m5": ["C15"], "C12-m6": [], "C18-m7": ["C06"], "C18-m8": ["C01", "C06"], "C11-m7": [], "C11-m8": ["C10"], "C13-m7": ["C09"], "C13-m8": ["C18"], "C02-m7": ["C03"], "C02-m8": ["C03"], "C15-m5": ["C12"], "C15-m6": ["C09"], "C07-m7": ["C08"], "C07-m8": ["C08"], "C05-m7": [], "C05-m8": ["C01", "C19"], "C19-m7": ["C20"], "C19-m8": ["C03"], "C12-m7": ["C15"], "C12-m8": ["C13"], "C20-m7": [], "C20-m8": ["C19"], "C06-m7": ["C01", "C18"], "C06-m8": ["C09", "C12"], "C10-m7": ["C11", "C12"], "C10-m8": ["C11", "C04"],
 }
